@@ -363,6 +363,11 @@ func (s *socket) MaybeUpgrade(transport transports.Transport) {
 	// we force a polling cycle to ensure a fast upgrade
 	check = func() {
 		utils.VerifYield("upgrade.check.tick", s.id)
+		// Test and send under the flush lock: a flush answering the pending poll
+		// between the two would leave this Send without a request to write to,
+		// and the resulting write error closes the session.
+		s.flushMu.Lock()
+		defer s.flushMu.Unlock()
 		if transports.POLLING == s.Transport().Name() && s.Transport().Writable() {
 			socket_log.Debug("writing a noop packet to polling for fast upgrade")
 			s.Transport().Send([]*packet.Packet{{Type: packet.NOOP}})
